@@ -817,14 +817,7 @@ pub fn code_block(input: ParseString) -> ParseResult<SectionElement> {
             return Ok((input, SectionElement::FencedMechCode(FencedMechCode{code: mech_tree, config, options})));
           },
           Err(err) => {
-            return Err(nom::Err::Error(ParseError {
-                cause_range: SourceRange::default(),
-                remaining_input: input,
-                error_detail: ParseErrorDetail {
-                    message: "Generic error parsing Mech code block",
-                    annotation_rngs: Vec::new(),
-                },
-            }));
+            return Err(nom::Err::Error(ParseError::new(input, "Generic error parsing Mech code block")));
           }
         };
       } else if tag.starts_with("equation") || tag.starts_with("eq") || tag.starts_with("math") || tag.starts_with("latex") || tag.starts_with("tex") {
